@@ -166,7 +166,7 @@ def _gen_cli(rng, cfg, files, wsdocs, nout):
 
 def gen(rng: random.Random, k: int, tier: str) -> dict:
     deep = tier == "thorough" and k % 3 == 2   # thorough: every third segment is a three times longer history
-    cfg = {"fault_rate": rng.choice([0.0, 0.0, 0.15, 0.3]), "infer_w": rng.choice([0.0, 0.5, 1.0]), "be_w": rng.choice([0.0, 0.0, 0.5, 1.5]),
+    cfg = {"fault_rate": rng.choice([0.0, 0.15, 0.3, 0.45]), "infer_w": rng.choice([0.0, 0.5, 1.0]), "be_w": rng.choice([0.0, 0.0, 0.5, 1.5]),
            "xml_w": rng.choice([0.0, 1.0]), "len": rng.randint(4, 12) * (3 if deep else 1), "orig_ws": [], "ps_ws": {}, "ps_names": {}}
     ops, files, wsdocs = [], {}, {}
     nws = rng.randint(1, 2)
